@@ -141,6 +141,12 @@ def judge_planted(ctx, name, inst, sol):
     ctx.case(["planted", name, inst], nontrivial=True)
     ctx.count("c11.planted")
     ctx.count("c11.planted." + name)
+    if getattr(spec, "check_model", None) is not None:
+        # the two independent pieces of the harness (planter, validator) must agree before either is used against the solver
+        if not spec.check_model(inst, sol):
+            ctx.inconc("harness: the rule validator refutes the planted grid", dict(ctx.current_case, planted_solution=sol))
+            return
+        ctx.count("c11.planted_grid_validated")
     if not is_sat:
         ctx.violation(f"{name}:wrong-sat:claims-none:{sc}:planted", f"solve_{name} reports no solution for an instance built around a rule-obeying grid",
                       dict(ctx.current_case, planted_solution=sol))
